@@ -48,8 +48,10 @@ def fences():
 # ------------------------------------------------------------------------------------------- ATX headings (4.2)
 def atx():
     for level, indent, sep in itertools.product(range(1, 7), (0, 3), (' ', '   ', '\t')):
-        for content, want in (('w', 'w'), ('w x', 'w x'), ('w#', 'w#'), ('w \\#', 'w #'), ('', ''), ('#w', '#w'), ('w \\###', 'w ###')):
+        for content, want in (('w', 'w'), ('w x', 'w x'), ('w#', 'w#'), ('w \\#', 'w #'), ('', ''), ('#w', '#w'), ('w \\###', 'w ###'), ('#', '#'), ('##', '##')):
             for closing in ('', ' #', ' #####', ' #  ', '\t##', ' ####### '):
+                if want in ('#', '##') and closing == '':
+                    continue        # '# #': the text itself reads as the closing sequence (empty heading; covered by content '')
                 if content == '' and closing == '' and sep != ' ':
                     continue            # '#' + tab / spaces only: trailing white space, same as the bare marker
                 line = ' ' * indent + '#' * level + (sep if (content or closing) else '') + content + closing
